@@ -992,6 +992,90 @@ async fn fetch_via_stream_client(query: &Message<Vec<u8>>, msgs: &[Vec<u8>]) -> 
     (out, end)
 }
 
+/// A transfer given up half-way and another one started on the same connection while the rest of the first is still
+/// arriving: the caller takes `keep` messages of the first transfer and drops the request; the peer goes on sending the
+/// first stream (under the first request's ID) and then sends the second one. The second request gets its own stream, whole.
+async fn fetch_after_abandoned(query: &Message<Vec<u8>>, msgs: &[Vec<u8>], keep: usize) -> (Vec<Vec<u8>>, String) {
+    use domain::net::client::request::{RequestMessage, RequestMessageMulti, SendRequestMulti};
+    use domain::net::client::stream;
+    use tokio::io::{AsyncReadExt, AsyncWriteExt};
+    let (client, mut server) = tokio::io::duplex(1 << 17);
+    let to_send: Vec<Vec<u8>> = msgs.to_vec();
+    let peer = tokio::spawn(async move {
+        async fn read_req(s: &mut tokio::io::DuplexStream) -> Option<Vec<u8>> {
+            let mut lb = [0u8; 2];
+            s.read_exact(&mut lb).await.ok()?;
+            let mut req = vec![0u8; u16::from_be_bytes(lb) as usize];
+            s.read_exact(&mut req).await.ok()?;
+            (req.len() >= 2).then_some(req)
+        }
+        async fn send(s: &mut tokio::io::DuplexStream, m: &[u8], id: &[u8]) -> bool {
+            let mut f = (m.len() as u16).to_be_bytes().to_vec();
+            f.extend_from_slice(m);
+            f[2] = id[0];
+            f[3] = id[1];
+            s.write_all(&f).await.is_ok()
+        }
+        let Some(r1) = read_req(&mut server).await else { return };
+        for m in to_send.iter().take(keep) {
+            if !send(&mut server, m, &r1).await {
+                return;
+            }
+        }
+        // the second request arrives while the first stream is still under way
+        let Some(r2) = read_req(&mut server).await else { return };
+        for m in to_send.iter().skip(keep) {
+            if !send(&mut server, m, &r1).await {
+                return;
+            }
+        }
+        for m in &to_send {
+            if !send(&mut server, m, &r2).await {
+                return;
+            }
+        }
+        let mut sink = [0u8; 64];
+        while let Ok(n) = server.read(&mut sink).await {
+            if n == 0 {
+                break;
+            }
+        }
+    });
+    let (conn, tr) = stream::Connection::<RequestMessage<Vec<u8>>, RequestMessageMulti<Vec<u8>>>::new(client);
+    let run = tokio::spawn(tr.run());
+    let mut out = Vec::new();
+    let end = 'done: {
+        let Ok(req1) = RequestMessageMulti::new(query.clone()) else { break 'done "request refused".to_string() };
+        {
+            let mut g1 = SendRequestMulti::send_request(&conn, req1);
+            for _ in 0..keep {
+                match tokio::time::timeout(std::time::Duration::from_secs(5), g1.get_response()).await {
+                    Ok(Ok(Some(_))) => {}
+                    other => break 'done format!("the first transfer ended early: {:?}", other.map(|r| r.map(|o| o.map(|m| m.as_slice().len())))),
+                }
+            }
+            // given up
+        }
+        let Ok(req2) = RequestMessageMulti::new(query.clone()) else { break 'done "request refused".to_string() };
+        let mut g2 = SendRequestMulti::send_request(&conn, req2);
+        loop {
+            match tokio::time::timeout(std::time::Duration::from_secs(5), g2.get_response()).await {
+                Ok(Ok(Some(m))) => out.push(m.as_slice().to_vec()),
+                Ok(Ok(None)) => break "end-of-stream".to_string(),
+                Ok(Err(e)) => break format!("error: {}", e),
+                Err(_) => break "no end of stream within 5 s".to_string(),
+            }
+            if out.len() > to_send_len_cap(msgs) {
+                break "more messages than were sent".to_string();
+            }
+        }
+    };
+    drop(conn);
+    run.abort();
+    peer.abort();
+    (out, end)
+}
+
 fn to_send_len_cap(msgs: &[Vec<u8>]) -> usize {
     msgs.len() + 2
 }
@@ -1525,6 +1609,21 @@ fn one_case(c: &mut Ctx, rt: &tokio::runtime::Runtime, fam: &str, idx: u64) {
                     }
                 }
             }
+            // ... and once more behind a transfer that was given up half-way on the same connection
+            if msgs.len() >= 3 {
+                let keep = 1 + (k.idx as usize + msgs.len()) % (msgs.len() - 2);
+                match ctx::catch(|| rt.block_on(fetch_after_abandoned(&query, &msgs, keep))) {
+                    Err(pi) => k.viol(&format!("panic:{}", pi.site()), &format!("panic in the stream client fetching a {} transfer behind an abandoned one: {} at {}:{}", kind, pi.msg, pi.file, pi.line)),
+                    Ok((got, end)) => {
+                        let same = got.len() == msgs.len() && got.iter().zip(&msgs).all(|(a, b)| a.len() == b.len() && a[2..] == b[2..]);
+                        if !same || end != "end-of-stream" {
+                            k.viol(&format!("client-stream:{}:behind-an-abandoned-transfer", kind), &format!("a {} transfer of {} messages was given up after {} of them and started again on the same connection while the rest was still arriving: the second request got {} messages, then: {}", kind, msgs.len(), keep, got.len(), end));
+                        } else {
+                            k.c.count("transfers_fetched_behind_an_abandoned_one", 1);
+                        }
+                    }
+                }
+            }
         }
         k.c.eval(&("pack", kind, pk.splits.len().min(6), pk.compress, pk.question_in_followups, pre.is_empty(), refo.states.len().min(4)));
         // the diff the receiving zone reports for an incremental transfer
@@ -1793,7 +1892,7 @@ pub fn run(c: &mut Ctx) {
         one_case(c, &rt, fam, idx);
     }
     if !c.replaying() {
-        for key in ["commit_diffs_checked", "end_to_end_full", "end_to_end_incremental", "repackaged_full", "repackaged_incremental", "multi_step_incremental", "transfers_accepted", "transfers_rejected", "sender_multi_message_streams", "aftermath_transfers_checked", "sender_streams_with_reserved_octets", "transfers_fetched_through_stream_client", "multi_step_transfers_fetched_through_stream_client", "moving_transfers_served", "moving_transfers_with_a_commit_during_preparation"] {
+        for key in ["commit_diffs_checked", "end_to_end_full", "end_to_end_incremental", "repackaged_full", "repackaged_incremental", "multi_step_incremental", "transfers_accepted", "transfers_rejected", "sender_multi_message_streams", "aftermath_transfers_checked", "sender_streams_with_reserved_octets", "transfers_fetched_through_stream_client", "multi_step_transfers_fetched_through_stream_client", "transfers_fetched_behind_an_abandoned_one", "moving_transfers_served", "moving_transfers_with_a_commit_during_preparation"] {
             c.floor(key, 5);
         }
     }
